@@ -114,7 +114,12 @@ impl<H: HttpClient + Clone> StreamingArchiveReader<H> {
         size: u32,
         key_store: Option<&TactKeyStore>,
     ) -> Result<Vec<u8>, StreamingError> {
-        let range = HttpRange::new(offset, offset + u64::from(size) - 1);
+        // An empty window has no bytes to ask for (an inclusive HTTP range cannot
+        // express it), and a window that ends behind u64::MAX does not exist
+        if size == 0 {
+            return Ok(Vec::new());
+        }
+        let range = Self::window(offset, size)?;
         let content = self.http_client.get_range(archive_url, Some(range)).await?;
 
         // If key store is provided and content looks like BLTE, try decompression
@@ -126,6 +131,16 @@ impl<H: HttpClient + Clone> StreamingArchiveReader<H> {
         } else {
             Ok(content.to_vec())
         }
+    }
+
+    /// The inclusive byte range of `size` (> 0) bytes at `offset`
+    fn window(offset: u64, size: u32) -> Result<HttpRange, StreamingError> {
+        let end = offset
+            .checked_add(u64::from(size) - 1)
+            .ok_or_else(|| StreamingError::InvalidRange {
+                reason: format!("offset {offset} + size {size} exceeds the u64 range"),
+            })?;
+        Ok(HttpRange::new(offset, end))
     }
 
     /// Extract multiple content pieces using optimized range requests
@@ -148,23 +163,35 @@ impl<H: HttpClient + Clone> StreamingArchiveReader<H> {
         // Look up all entries in the index
         let mut range_requests = Vec::new();
         let mut request_map = HashMap::new();
+        let mut results = HashMap::new();
 
         for request in requests {
             if let Some(entry) = index.find_entry(&request.encoding_key) {
-                let range = HttpRange::new(entry.offset, entry.offset + u64::from(entry.size) - 1);
+                if entry.size == 0 {
+                    // Nothing to fetch for an empty blob
+                    results.insert(
+                        request.encoding_key.clone(),
+                        ArchiveExtractionResult {
+                            content: Vec::new(),
+                            size: 0,
+                            was_compressed: false,
+                            archive_offset: entry.offset,
+                        },
+                    );
+                    continue;
+                }
+                let range = Self::window(entry.offset, entry.size)?;
                 range_requests.push(range);
                 request_map.insert(range, (request, entry.clone()));
             }
         }
 
         if range_requests.is_empty() {
-            return Ok(HashMap::new());
+            return Ok(results);
         }
 
         // For simplicity in this implementation, execute requests individually
         // In a production system, you would implement proper range coalescing
-        let mut results = HashMap::new();
-
         for range in range_requests {
             if let Some((request, entry)) = request_map.get(&range) {
                 let content = self.http_client.get_range(archive_url, Some(range)).await?;
